@@ -146,13 +146,18 @@ theorem handlers_cover_the_body :
     ∀ p ∈ wholePaths, precededBy (· = .installTerm) (· = .lockAcquire) false p = true ∧ precededBy (· = .installInt) (· = .lockAcquire) false p = true
       ∧ precededBy (· = .body) (fun e => e = .restoreTerm || e = .restoreInt) false p = true := by decide
 
-/-- **no I/O on the lock file**: no path opens, reads or writes the lock file through another descriptor (which would drop the POSIX
-    record lock while the process believes it holds it). -/
+/-- **no I/O on the lock file, and its name is never removed**: no path opens, reads or writes the lock file through another descriptor
+    (which would drop the POSIX record lock while the process believes it holds it), and no path unlinks or renames the lock path (which
+    would detach the name from the inode that the holder and the queued launches have open: hypothesis `Op.unlink ∉ ops` of
+    `C10LockIds.mutual_exclusion_without_unlink`; with it, `C10LockIds.unlink_breaks_mutual_exclusion`). -/
 theorem no_lock_file_io :
-    (∀ p ∈ wholePaths, p.contains .lockFileIO = false) ∧ (∀ m, (Gen.pathExitS m).contains .lockFileIO = false)
-    ∧ (∀ c, (Gen.pathSignal c).contains .lockFileIO = false) ∧ (∀ c, (Gen.handlerSeq c).contains .lockFileIO = false)
-    ∧ Gen.launchSeq.contains .lockFileIO = false ∧ Gen.launchSeqMarkers.contains .lockFileIO = false := by
-  refine ⟨by decide, fun _ => by rfl, fun _ => by rfl, fun _ => by rfl, by decide, by decide⟩
+    (∀ p ∈ wholePaths, p.contains .lockFileIO = false ∧ p.contains .unlinkLock = false)
+    ∧ (∀ m, (Gen.pathExitS m).contains .lockFileIO = false ∧ (Gen.pathExitS m).contains .unlinkLock = false)
+    ∧ (∀ c, (Gen.pathSignal c).contains .lockFileIO = false ∧ (Gen.pathSignal c).contains .unlinkLock = false)
+    ∧ (∀ c, (Gen.handlerSeq c).contains .lockFileIO = false ∧ (Gen.handlerSeq c).contains .unlinkLock = false)
+    ∧ Gen.cleanupSeq.contains .unlinkLock = false
+    ∧ (∀ p ∈ [Gen.launchSeq, Gen.launchSeqMarkers], p.contains .lockFileIO = false ∧ p.contains .unlinkLock = false) := by
+  refine ⟨by decide, fun _ => ⟨by rfl, by rfl⟩, fun _ => ⟨by rfl, by rfl⟩, fun _ => ⟨by rfl, by rfl⟩, by decide, by decide⟩
 
 /-- **the launch happens under the job lock**: the scheduler spawns the job process and writes its pid file between taking and giving
     back the job lock (so the job process, which queues on the same lock, cannot reach its clean-up before the pid file exists), in
